@@ -477,6 +477,35 @@ func GenDoc(r *rand.Rand, p *AP, kind int) (toks []Tok, b []byte) {
 			sb.WriteString(pickS(r, words))
 		}
 		return nil, []byte(sb.String())
+	case 10: // a deep, properly closed chain of a few element names (dropped for lack of attributes, kept, unknown), far deeper
+		// than any bound a "reasonable" stack limit might have
+		cand := append(append([]string{"a", "span", "font", "b", "div", "blink"}, pool...), genPatEls...)
+		names := []string{}
+		for _, n := range cand {
+			if !VoidEls[n] && !RawEls[n] && !unsafeName(n) && !inSet(p.Skip, n) {
+				names = append(names, n)
+			}
+		}
+		k := 1 + r.Intn(3)
+		chosen := []string{}
+		for i := 0; i < k; i++ {
+			chosen = append(chosen, pickS(r, names))
+		}
+		depth := 130 + r.Intn(200)
+		for i := 0; i < depth; i++ {
+			n := chosen[i%len(chosen)]
+			as := []Attr{}
+			if r.Intn(8) == 0 {
+				as = g.attrs(n)
+			}
+			toks = append(toks, Tok{T: "start", N: n, A: as})
+		}
+		toks = append(toks, Tok{T: "text", D: g.mark("T"), A: []Attr{}})
+		for i := depth - 1; i >= 0; i-- {
+			toks = append(toks, Tok{T: "end", N: chosen[i%len(chosen)], A: []Attr{}})
+		}
+		b = Serialise(toks, nil)
+		return toks, b
 	case 4: // fragment soup
 		var sb strings.Builder
 		for k := 1 + r.Intn(10); k > 0; k-- {
